@@ -29,14 +29,15 @@ import (
 // With the socket variants every datagram the connection wrote has reached onWrite when settle() returns (a barrier
 // ping of the peer is answered after everything written before it).
 type link struct {
-	mode    string
-	cc      *udpclient.Conn
-	onWrite func(raw []byte)
-	inject  func(raw []byte)
-	out     func() [][]byte
-	settle  func()
-	close   func()
-	errs    func() int
+	mode     string
+	cc       *udpclient.Conn
+	onWrite  func(raw []byte)
+	inject   func(raw []byte)
+	out      func() [][]byte
+	settle   func()
+	close    func()
+	errs     func() int
+	failNext func(n int) // mem only: the next n writes fail with a transient network error
 }
 
 func newLink(mode string, maxR, at int, onWrite func(raw []byte)) *link {
@@ -49,7 +50,7 @@ func newLink(mode string, maxR, at int, onWrite func(raw []byte)) *link {
 		})
 		u.Sess.OnWrite = onWrite
 		return &link{mode: mode, cc: u.CC, inject: func(raw []byte) { _ = u.Inject(raw) }, out: func() [][]byte { return u.Sess.Out(0) },
-			settle: func() {}, close: u.Close, errs: u.Errs.Len}
+			settle: func() {}, close: u.Close, errs: u.Errs.Len, failNext: func(n int) { u.Sess.FailNext.Store(int64(n)) }}
 	}
 	l := &link{mode: mode}
 	var mu sync.Mutex
